@@ -16,7 +16,7 @@ def _ex(ctx, fname, loop_specs=None):
 
 def _arg(ex, shape, tag):
     if shape == "str":
-        return NameV(ex.ctx.fresh_name(tag))
+        return verify.note_arg(ex, tag, NameV(ex.ctx.fresh_name(tag)))
     if shape == "list":
         return verify.mk_names(ex, tag, is_list=True)
     if shape == "set":
@@ -157,7 +157,7 @@ def setter_task(qual, params, extra_shapes, loop, requires=None):
 
 
 def _sym_bool(ex):
-    return ex.ctx.fresh("flag", z3.BoolSort())
+    return verify.note_arg(ex, "flag", ex.ctx.fresh("flag", z3.BoolSort()))
 
 
 def _sym_type(ex):
